@@ -32,16 +32,19 @@ type Config struct {
 	ApqCap  int    `json:"apq_cap"` // 0 = unbounded
 	QC      bool   `json:"query_cache"`
 	QCCap   int    `json:"query_cache_cap"`
+	// Deep configs get the full length in the all-sequences phase, the others one less (own-map
+	// and lru3 behave like mapcache and lru2 there; the BFS phase treats all configs alike).
+	Deep bool `json:"all_sequences_full_length"`
 }
 
 var configs = []Config{
 	{Name: "own-map", ApqKind: "own"},
-	{Name: "mapcache", ApqKind: "mapcache"},
-	{Name: "lru1", ApqKind: "lru", ApqCap: 1},
-	{Name: "lru2", ApqKind: "lru", ApqCap: 2},
+	{Name: "mapcache", ApqKind: "mapcache", Deep: true},
+	{Name: "lru1", ApqKind: "lru", ApqCap: 1, Deep: true},
+	{Name: "lru2", ApqKind: "lru", ApqCap: 2, Deep: true},
 	{Name: "lru3", ApqKind: "lru", ApqCap: 3},
-	{Name: "mapcache+qc2", ApqKind: "mapcache", QC: true, QCCap: 2},
-	{Name: "lru2+qc1", ApqKind: "lru", ApqCap: 2, QC: true, QCCap: 1},
+	{Name: "mapcache+qc2", ApqKind: "mapcache", QC: true, QCCap: 2, Deep: true},
+	{Name: "lru2+qc1", ApqKind: "lru", ApqCap: 2, QC: true, QCCap: 1, Deep: true},
 	{Name: "lru1+qc2", ApqKind: "lru", ApqCap: 1, QC: true, QCCap: 2},
 }
 
@@ -333,7 +336,9 @@ func (w *worker) send(s *server, e Event) Obs {
 }
 
 // judge compares one observed step with the prediction of the reference model.
-func judge(e Event, pred Pred, o Obs, before, after, modelAfter string, history []Event) []Problem {
+// diverged: implementation and model already disagreed about the state before this step (that was
+// reported when the shorter history was judged), so only the response is compared here.
+func judge(e Event, pred Pred, o Obs, before, after, modelAfter string, diverged bool, history []Event) []Problem {
 	var ps []Problem
 	bad := func(sig, format string, a ...any) {
 		ps = append(ps, Problem{Sig: sig + "|" + e.Kind, What: fmt.Sprintf("event %q: ", e.Name) + fmt.Sprintf(format, a...)})
@@ -369,7 +374,7 @@ func judge(e Event, pred Pred, o Obs, before, after, modelAfter string, history 
 	if pred.Class == "rejected" && before != after {
 		bad("state-changed-by-rejected-request", "state %s -> %s", before, after)
 	}
-	if after != modelAfter {
+	if after != modelAfter && !diverged {
 		bad("state-differs-from-model", "implementation state %s, model state %s", after, modelAfter)
 	}
 	// the statement, read directly off the history (no cache policy involved): whatever a
@@ -415,19 +420,31 @@ func canonDoc(d *ast.QueryDocument) string {
 	return b.String()
 }
 
-// runTrace replays evs on a FRESH server and judges every step.
-func (w *worker) runTrace(cfg Config, evs []Event, universe []string) Result {
+// runTrace replays evs on a FRESH server and judges the last step and the state reached (every
+// proper prefix is a history of its own that the enumeration judges separately); with allSteps
+// (replay mode) every step is judged.
+func (w *worker) runTrace(cfg Config, evs []Event, universe []string, allSteps bool) Result {
 	s := w.newServer(cfg)
 	m := newModel(cfg)
 	var res Result
+	diverged := false
+	valsBefore := map[string]string{}
 	for i, e := range evs {
 		before := s.stateKey()
+		diverged = before != m.Key()
+		if i == len(evs)-1 {
+			for k, v := range s.apq.mirror.Val {
+				valsBefore[k] = v
+			}
+		}
 		o := w.send(s, e)
 		pred := m.Step(e)
 		after := s.stateKey()
-		for _, p := range judge(e, pred, o, before, after, m.Key(), evs[:i]) {
-			p.Step = i
-			res.Problems = append(res.Problems, p)
+		if allSteps || i == len(evs)-1 {
+			for _, p := range judge(e, pred, o, before, after, m.Key(), diverged, evs[:i]) {
+				p.Step = i
+				res.Problems = append(res.Problems, p)
+			}
 		}
 		res.Steps = append(res.Steps, Step{Event: e.Name, Pred: pred, Obs: o, State: after, Model: m.Key()})
 	}
@@ -475,16 +492,23 @@ func (w *worker) runTrace(cfg Config, evs []Event, universe []string) Result {
 		ps = append(ps, psq...)
 	}
 	res.Key = stateKey(realA, realQ)
-	if res.Key != res.MirrorKey {
+	if a, b := stateKey[*ast.QueryDocument](realA, nil), stateKey[*ast.QueryDocument](s.apq.mirror, nil); a != b {
 		ps = append(ps, Problem{Sig: "cache-state-differs-from-policy|" + s.apq.label,
-			What: fmt.Sprintf("real caches hold %s; the reference policy applied to the calls gqlgen made gives %s", res.Key, res.MirrorKey)})
+			What: fmt.Sprintf("the real APQ cache holds %s; the reference policy applied to the calls gqlgen made gives %s", a, b)})
 	}
-	if mk := m.Key(); res.Key != mk {
+	if s.qc != nil {
+		if a, b := stateKey(newOrdered[string](0), realQ), stateKey(newOrdered[string](0), s.qc.mirror); a != b {
+			ps = append(ps, Problem{Sig: "cache-state-differs-from-policy|" + s.qc.label,
+				What: fmt.Sprintf("the real query cache holds %s; the reference policy applied to the calls gqlgen made gives %s", a, b)})
+		}
+	}
+	if mk := m.Key(); res.Key != mk && !diverged && res.Key != res.MirrorKey {
+		// (when real == mirror the per-step comparison above has already said so)
 		end("state-differs-from-model", "real state %s, model state %s", res.Key, mk)
 	}
 	// invariant on the state reached: every entry binds lower-case-hex sha256(text) to text
 	for _, k := range realA.Keys {
-		if v := realA.Val[k]; sha(v) != k {
+		if v := realA.Val[k]; sha(v) != k && (allSteps || valsBefore[k] != v) { // entries made by the last step
 			end("cache-entry-key-is-not-sha256-of-its-text", "APQ cache entry %s -> %s (key %q, text %q)", nick(k), nick(v), k, v)
 		}
 	}
@@ -493,7 +517,7 @@ func (w *worker) runTrace(cfg Config, evs []Event, universe []string) Result {
 			end("map-contents-differ-from-answers|"+s.apq.label, "real map %v, answers to Get %v", direct, realA.Val)
 		}
 		for k, v := range direct {
-			if sha(v) != k {
+			if sha(v) != k && (allSteps || valsBefore[k] != v) {
 				end("cache-entry-key-is-not-sha256-of-its-text", "APQ cache entry (read from the map) key %q text %q", k, v)
 			}
 		}
